@@ -12,6 +12,7 @@ CONSTANTS Key, Val, KeyLen, ValLen,   \* abstract keys / values and their byte l
           Handle,                      \* handle objects
           Hdr, NoHdr, HdrLen,          \* header choices (h1,h2,b0), "no file", and len(h2)+len(b0) per choice
           MaxRecs,                     \* bound on records (state constraint lives in the action guard)
+          WithTruncate, MaxGen,        \* growth beyond C02: truncate() empties the file (generation counter gen)
           Deviations                   \* named departures from the required behaviour (non-vacuity / findings)
 VARIABLES file,   \* [exists, hdr, recs : Seq([k,v])]
           hs,     \* [Handle -> [mode : {"none","closed","r","a"}, toc : SUBSET Key, n : Nat, hdr]]
@@ -25,20 +26,24 @@ MapOf(recs)    == [k \in KeysOf(recs) |-> ValueOf(recs, k)]
 OpenHandles    == {h \in Handle : hs[h].mode \in {"r", "a"}}
 Writers        == {h \in Handle : hs[h].mode = "a"}
 
-Init == /\ file = [exists |-> FALSE, hdr |-> NoHdr, recs |-> <<>>]
-        /\ hs = [h \in Handle |-> [mode |-> "none", toc |-> {}, n |-> 0, hdr |-> NoHdr]]
+Init == /\ file = [exists |-> FALSE, hdr |-> NoHdr, recs |-> <<>>, gen |-> 0]
+        /\ hs = [h \in Handle |-> [mode |-> "none", toc |-> {}, n |-> 0, g |-> 0, hdr |-> NoHdr]]
         /\ last = [act |-> "init", out |-> "ok"]
 
 Note(a, o) == last' = a @@ [out |-> o]
 Fail(a, o) == UNCHANGED sv /\ Note(a, o)
 
-(* map_blocks(): skipped when the cached end equals the file size             *)
+(* map_blocks(): skipped when the handle's cached end is still the end of the file.  `gen` counts truncations: *)
+(* a cache taken before a truncation says nothing about the file (the code has no such counter and compares     *)
+(* byte sizes only - deviation "SizeOnlyShortcut"; "NeverClearsToc" = a rescan adds to the old table).          *)
 Mapped(h, forced) ==
-  IF ~forced /\ hs[h].n = Len(file.recs) /\ ~("StaleReopen" \in Deviations /\ hs[h].toc # {})
-     THEN [toc |-> hs[h].toc, n |-> hs[h].n]
+  LET sameGen == hs[h].g = file.gen \/ "SizeOnlyShortcut" \in Deviations IN
+  IF ~forced /\ sameGen /\ hs[h].n = Len(file.recs) /\ ~("StaleReopen" \in Deviations /\ hs[h].toc # {})
+     THEN [toc |-> hs[h].toc, n |-> hs[h].n, g |-> hs[h].g]
      ELSE IF "StaleReopen" \in Deviations /\ hs[h].toc # {}
-          THEN [toc |-> hs[h].toc, n |-> hs[h].n]
-          ELSE [toc |-> hs[h].toc \cup KeysOf(file.recs), n |-> Len(file.recs)]
+          THEN [toc |-> hs[h].toc, n |-> hs[h].n, g |-> hs[h].g]
+          ELSE [toc |-> (IF "NeverClearsToc" \in Deviations THEN hs[h].toc ELSE {}) \cup KeysOf(file.recs),
+                n |-> Len(file.recs), g |-> file.gen]
 
 CanOpen(m) == IF m = "r" THEN Writers = {} ELSE OpenHandles = {}
 
@@ -47,8 +52,8 @@ NewX(h, hd) ==
   LET a == [act |-> "newx", h |-> h, hdr |-> hd] IN
   /\ hs[h].mode = "none" /\ CanOpen("a")
   /\ IF file.exists THEN Fail(a, "FileExistsError")
-     ELSE /\ file' = [exists |-> TRUE, hdr |-> hd, recs |-> <<>>]
-          /\ hs' = [hs EXCEPT ![h] = [mode |-> "a", toc |-> {}, n |-> 0, hdr |-> hd]]
+     ELSE /\ file' = [exists |-> TRUE, hdr |-> hd, recs |-> <<>>, gen |-> 0]
+          /\ hs' = [hs EXCEPT ![h] = [mode |-> "a", toc |-> {}, n |-> 0, g |-> 0, hdr |-> hd]]
           /\ Note(a, "ok")
 
 (* UKVFile(path, mode=m) on a fresh object                                    *)
@@ -72,6 +77,15 @@ Close(h) ==
   /\ hs[h].mode \in {"r", "a"}
   /\ hs' = [hs EXCEPT ![h].mode = "closed"]
   /\ UNCHANGED file /\ Note([act |-> "close", h |-> h], "ok")
+
+(* h.truncate() (growth beyond C02): every record is discarded; the handle's own table is emptied with it *)
+Truncate(h) ==
+  LET a == [act |-> "truncate", h |-> h] IN
+  /\ WithTruncate /\ hs[h].mode = "a" /\ file.gen < MaxGen
+  /\ file' = [file EXCEPT !.recs = <<>>, !.gen = @ + 1]
+  /\ hs' = [hs EXCEPT ![h].toc = IF "TruncateKeepsToc" \in Deviations THEN @ ELSE {},
+                      ![h].n = 0, ![h].g = file.gen + 1]
+  /\ Note(a, "ok")
 
 (* pickle.loads(pickle.dumps(h)) of a closed handle: the cached table of contents travels along *)
 Pickle(h) ==
@@ -102,7 +116,7 @@ Get(h, k) ==
 Next == \E h \in Handle :
           \/ \E hd \in Hdr : NewX(h, hd)
           \/ \E m \in {"r", "a"} : New(h, m) \/ Reopen(h, m)
-          \/ Close(h) \/ Pickle(h)
+          \/ Close(h) \/ Pickle(h) \/ Truncate(h)
           \/ \E k \in Key : Get(h, k) \/ \E v \in Val : Put(h, k, v)
 
 Spec == Init /\ [][Next]_vars
@@ -127,6 +141,7 @@ TypeOK == /\ file.exists \in BOOLEAN
           /\ \A h \in Handle : hs[h].mode \in {"none", "closed", "r", "a"} /\ hs[h].toc \subseteq Key
 NoDuplicateRecord == \A i, j \in 1..Len(file.recs) : file.recs[i].k = file.recs[j].k => i = j
 TocSound      == \A h \in Handle : hs[h].toc \subseteq KeysOf(file.recs)          \* listed => really put
+TocSoundG     == \A h \in Handle : (hs[h].g = file.gen \/ hs[h].mode \in {"r", "a"}) => hs[h].toc \subseteq KeysOf(file.recs)
 TocComplete   == \A h \in OpenHandles : hs[h].toc = KeysOf(file.recs)             \* as of the last open + own puts
 KeyLenOK      == \A i \in 1..Len(file.recs) : KeyLen[file.recs[i].k] <= 255
 HandleHdrOK   == \A h \in Handle : hs[h].mode # "none" => hs[h].hdr = file.hdr
@@ -134,9 +149,11 @@ OneWriter     == Cardinality(Writers) <= 1 /\ (Writers # {} => OpenHandles = Wri
 FailedOpIsNoOp == [][last'.out # "ok" => sv' = sv]_vars
 GetReturnsThePut == [][(last'.act = "get" /\ last'.out = "ok") => last'.val = MapOf(file.recs)[last'.k]]_vars
 HeadersPreserved == [][file.exists => file'.exists /\ file'.hdr = file.hdr]_vars
-RecordsImmutable == [][\A i \in 1..Len(file.recs) : i <= Len(file'.recs) /\ file'.recs[i] = file.recs[i]]_vars
+RecordsImmutable == [][last'.act # "truncate" => \A i \in 1..Len(file.recs) : i <= Len(file'.recs) /\ file'.recs[i] = file.recs[i]]_vars
+TruncateEmpties  == [][last'.act = "truncate" => (file'.recs = <<>> /\ hs'[last'.h].toc = {})]_vars
 
 (* ----- refinement of the abstract insert-only map ------------------------- *)
-KV == INSTANCE KVMap WITH store <- [exists |-> file.exists, hdr |-> file.hdr, map |-> MapOf(file.recs)], dummy <- 0
+KV == INSTANCE KVMap WITH store <- [exists |-> file.exists, hdr |-> file.hdr, map |-> MapOf(file.recs)], dummy <- 0,
+                         AllowClear <- WithTruncate
 Refines == KV!KVSpec
 =============================================================================
